@@ -1,5 +1,6 @@
 """C06 — editing functions produce exactly the document the edit denotes (structural clauses)."""
 import report
+from rules import accessors
 from rules import editing, buffers, layout, walkers
 
 EXPLANATION = (
@@ -29,4 +30,8 @@ def check(ctx, run):
     only = lambda p: 'iterator' in p
     walkers.w_init(ctx, run, 'R06.9/R05.1', only=only, floor=7)
     walkers.w_advance(ctx, run, 'R06.9/R05.2', only=only, floor=4)
+    import boundaries
+    _bf = lambda p_: p_.startswith(('functions::delete_', 'functions::array_insert', 'functions::object_'))
+    boundaries.check(ctx, run, 'R06.10', [p_ for p_ in sorted(boundaries.load_baseline() or {}) if _bf(p_)], 'an editor rejects a position / key')
+    accessors.name_variants_alike(ctx, run, 'R06.11', lambda p_: p_.startswith('functions::'))
     return report.finish(run, level='other', explanation=EXPLANATION, assumptions=["A1: valid documents", "A2/A3"])
